@@ -6,11 +6,11 @@ package main
 // harness from the start with a longer prefix (DESIGN.md §3.2(b)).
 
 import (
-	"os"
-	"sync/atomic"
 	"fmt"
+	"os"
 	"sort"
 	"strings"
+	"sync/atomic"
 )
 
 type prefix struct {
@@ -43,7 +43,7 @@ var intervalMismatches, intervalChecked int64
 
 type pathStats struct {
 	Decisions, Obligations, ObligationsTrivial, Discharged, Candidates, Undischarged int
-	FeasQueries, ModelHits, IntervalHits                                            int
+	FeasQueries, ModelHits, IntervalHits                                             int
 }
 
 type pathCtx struct {
@@ -104,6 +104,8 @@ func (p *pathCtx) freshName(base string) string {
 }
 
 func (p *pathCtx) newVar(base string, s sortKind) *term {
+	// '|' and '\\' cannot occur in a quoted SMT-LIB symbol
+	base = strings.NewReplacer("|", "/", "\\", "/").Replace(base)
 	v := mkVar(p.freshName(base), s)
 	p.vars = append(p.vars, v)
 	p.varSeen[v.s] = true
